@@ -413,17 +413,32 @@ class Exec:
                 lo = self.env[vid]
                 var = tgt
         step = None
+        latch_nodes = []
+        if var is not None and inc is not None and inc.get("k") == "bin" and inc.get("op") == ",":
+            # for (...; ...; i++, other): the induction step plus expressions executed at the loop latch (also after `continue`)
+            parts = []
+            def flat_comma(nd):
+                if isinstance(nd, dict) and nd.get("k") == "bin" and nd.get("op") == ",":
+                    flat_comma(nd["a"]); flat_comma(nd["b"])
+                else:
+                    parts.append(nd)
+            flat_comma(inc)
+            steps = [q for q in parts if isinstance(q, dict) and ((q.get("k") == "un" and q.get("op") in ("++", "--") and q["a"].get("id") == vid) or
+                                                                  (q.get("k") == "assign" and q["a"].get("id") == vid and q.get("op") in ("+=", "-=")))]
+            if len(steps) == 1:
+                latch_nodes = [q for q in parts if q is not steps[0]]
+                inc = steps[0]
         if var is not None and inc is not None:
             if inc.get("k") == "un" and inc.get("op") in ("++", "--") and inc["a"].get("id") == vid:
                 step = I(1 if inc["op"] == "++" else -1)
             elif inc.get("k") == "assign" and inc["a"].get("id") == vid and inc.get("op") in ("+=", "-="):
                 s = self.ev(inc["b"], out)
                 step = s if inc["op"] == "+=" else sym.neg(s)
-        body_asg, _ = assigned_ids(body)
+        body_asg, _ = assigned_ids([body] + latch_nodes)
         ok = var is not None and step is not None and cond is not None and vid not in body_asg
-        self.dry_forget([cond, inc, body] if not ok else [body])
+        self.dry_forget([cond, inc, body] if not ok else [body] + latch_nodes)
         if ok:
-            self.havoc(body)
+            self.havoc([body] + latch_nodes)
             lv = sym.sym("%s@%d" % (vname, node["l"]))
             self.env[vid] = lv
             c = self.ev(cond, out)
@@ -437,13 +452,18 @@ class Exec:
             if cmpop is not None and not sym.contains(hi, lv):
                 b = []
                 st = self.block(body, b)
+                latch = []
+                for q in latch_nodes:
+                    self.ev(q, latch, stmt=True)
                 eff = {"e": "loop", "var": lv, "lo": lo, "cmp": cmpop, "hi": hi, "step": step, "body": b,
                        "l": node["l"], "name": vname}
+                if latch:
+                    eff["latch"] = latch
                 if st in ("return", "exit"):
                     eff["body_exits"] = True
                 out.append(eff)
-                self.forget_stores_in(b)
-                self.havoc(body)
+                self.forget_stores_in(b + latch)
+                self.havoc([body] + latch_nodes)
                 self.env[vid] = ("var", vname, vid)
                 return "fall"
             # complex condition (e.g. two-variable loops): fall through to generic form
@@ -941,6 +961,8 @@ def flat(effects, into_inlined=True, into_loops=True, into_ifs=True):
             yield from flat(x["else"], into_inlined, into_loops, into_ifs)
         elif e in ("loop", "while") and into_loops:
             yield from flat(x["body"], into_inlined, into_loops, into_ifs)
+            if x.get("latch"):
+                yield from flat(x["latch"], into_inlined, into_loops, into_ifs)
         elif e == "inlined" and into_inlined:
             yield from flat(x["body"], into_inlined, into_loops, into_ifs)
 
